@@ -264,3 +264,72 @@ Definition entry_ok_ex (ex : list (cellid * Z)) (tol : Q) (e : cellid * Z * beha
 
 Definition raises_b (t : qtable) (c : cellid) (n : Z) : bool :=
   match lookup t c n with Some Raises => true | _ => false end.
+
+(* ------------------------------------------------------------------ fast checker: outward-rounded powers
+   The exact sums above involve integers of (61 n) bits.  The fast checker bounds every power
+   x^e * B (B = 2^K) from below and above by integers of about K bits (floor / ceiling after every
+   multiplication by X), multiplies the bounds of the coordinates exactly, and accumulates a lower and
+   an upper bound of  B^d * sum_q W_q prod X_qi^ei / sx^|es|.  Sound for nodes with X >= 0. *)
+Definition pstep_lo (P X v : Z) : Z := (v * X / P)%Z.
+Definition pstep_hi (P X v : Z) : Z := ((v * X + P - 1) / P)%Z.
+Fixpoint itab_from (P X lo hi : Z) (n : nat) : list (Z * Z) :=
+  match n with
+  | O => [(lo, hi)]
+  | S n' => (lo, hi) :: itab_from P X (pstep_lo P X lo) (pstep_hi P X hi) n'
+  end.
+Definition itab (P B : Z) (n : nat) (X : Z) : list (Z * Z) := itab_from P X B B n.
+
+Fixpoint iprod (tabs : list (list (Z * Z))) (es : list nat) : Z * Z :=
+  match tabs, es with
+  | t :: ts, e :: es' =>
+      let lh := nth e t (0, 0)%Z in let LH := iprod ts es' in
+      (fst lh * fst LH, snd lh * snd LH)%Z
+  | _, _ => (1, 1)%Z
+  end.
+
+Fixpoint isum (T : list (list (list (Z * Z)) * Z)) (es : list nat) : Z * Z :=
+  match T with
+  | [] => (0, 0)%Z
+  | nd :: T' =>
+      let LH := iprod (fst nd) es in let S := isum T' es in let W := snd nd in
+      if (0 <=? W)%Z then (W * fst LH + fst S, W * snd LH + snd S)%Z
+      else (W * snd LH + fst S, W * fst LH + snd S)%Z
+  end.
+
+Definition imono_ok (s : shape) (r : drule) (n : nat) (tol : Q) (Bp : positive)
+           (T : list (list (list (Z * Z)) * Z)) (es : list nat) : bool :=
+  all_b (fun e => Nat.leb e n) es && Nat.eqb (length es) (dim s)
+  && (let S := isum T es in let D := (sw r * ppow Bp (length es))%positive in
+      Qle_bool (exactQ s es - tol) (fst S # D) && Qle_bool (snd S # D) (exactQ s es + tol)).
+
+Definition nodes_nonneg (r : drule) : bool :=
+  all_b (fun nd => all_b (fun X => (0 <=? X)%Z) (fst nd)) (nodes r).
+
+(* the same table with shifts instead of divisions when the node scale P is a power of two *)
+Definition sstep_lo (k X v : Z) : Z := Z.shiftr (v * X) k.
+Definition sstep_hi (k P X v : Z) : Z := Z.shiftr (v * X + P - 1) k.
+Fixpoint stab_from (k P X lo hi : Z) (n : nat) : list (Z * Z) :=
+  match n with
+  | O => [(lo, hi)]
+  | S n' => (lo, hi) :: stab_from k P X (sstep_lo k X lo) (sstep_hi k P X hi) n'
+  end.
+Definition itab_fast (P B : Z) (n : nat) : Z -> list (Z * Z) :=
+  let k := Z.log2 P in
+  if (2 ^ k =? P)%Z then (fun X => stab_from k P X B B n) else itab P B n.
+
+Definition icheck_part (s : shape) (r : drule) (n : nat) (tol : Q) (Bp : positive)
+           (ms : list (list nat)) : bool :=
+  let tab := itab_fast (Zpos (sx r)) (Zpos Bp) n in
+  let T := map (fun nd => (map tab (fst nd), snd nd)) (nodes r) in
+  all_b (imono_ok s r n tol Bp T) ms.
+
+Definition icheck_rule (s : shape) (r : drule) (n : nat) (tol : Q) (Bp : positive) : bool :=
+  nodes_ok s r && nodes_nonneg r && icheck_part s r n tol Bp (monos s n).
+
+(* working precision of the fast checker: 2^-72 per rounding *)
+Definition B72 : positive := Pos.shiftl 1 72.
+
+(* generated rule literals share the coordinate values of a data module through a dictionary
+   (the coordinates of tensor rules repeat those of the segment / triangle rules) *)
+Definition decode (d : list Z) (enc : list (list N * Z)) : list (list Z * Z) :=
+  map (fun nd => (map (fun i => nth (N.to_nat i) d 0%Z) (fst nd), snd nd)) enc.
